@@ -27,6 +27,9 @@ def load_rules(prop):
         if exc.name == f"jcheck.props.{prop.lower()}":
             return False
         raise
+    from .props.w8 import register as register_w8
+
+    register_w8(prop)
     from .props.generic import register
 
     register(prop)
